@@ -131,9 +131,11 @@ def render_class(o, t, members, inv, ic):
     """members: list of ("c", r) | ("r", lo, hi) | ("u", name).  Returns (raw, chars, rngs, ucl)"""
     s = "[" + ("^" if inv else "")
     chars, rngs, ucl = [], [], []
-    for m in members:
+    for idx, m in enumerate(members):
         if m[0] == "c":
-            s += class_member_char(m[1], t)
+            # an unescaped dash is a plain character at the very start, at the very end, and right after a range
+            plain_dash = m[1] == 45 and (idx == 0 or idx == len(members) - 1 or members[idx - 1][0] == "r") and t.chance(0.7)
+            s += "-" if plain_dash else class_member_char(m[1], t)
             chars.append(m[1])
         elif m[0] == "r":
             s += class_member_char(m[1], t) + "-" + class_member_char(m[2], t)
